@@ -1,9 +1,321 @@
 package interp
 
-import "golang.org/x/tools/go/ssa"
+// If-conversion of pure condition regions: go/ssa lowers `a || b || c` and
+// `a && b` into DAGs of tiny blocks (a few pure instructions and an If each).
+// Forking at every disjunct multiplies paths that differ in nothing, so at a
+// symbolic If the engine evaluates the maximal DAG of pure condition blocks
+// symbolically and takes a single k-way decision among the region's exits.
+
+import (
+	"go/token"
+	"go/types"
+
+	"golang.org/x/tools/go/ssa"
+)
 
 var UseRegions = true
 
+type regionInfo struct {
+	ok    bool
+	order []*ssa.BasicBlock // topological order
+	in    map[*ssa.BasicBlock]bool
+}
+
+var regionCache = map[*ssa.If]*regionInfo{}
+
+func numericType(t types.Type) bool {
+	b, ok := t.Underlying().(*types.Basic)
+	return ok && b.Info()&(types.IsInteger|types.IsBoolean) != 0
+}
+
+func pureInstr(in ssa.Instruction) bool {
+	switch in := in.(type) {
+	case *ssa.DebugRef:
+		return true
+	case *ssa.BinOp:
+		if in.Op == token.QUO || in.Op == token.REM {
+			return false
+		}
+		return numericType(in.X.Type()) && numericType(in.Y.Type())
+	case *ssa.UnOp:
+		return (in.Op == token.SUB || in.Op == token.XOR || in.Op == token.NOT) && numericType(in.X.Type())
+	case *ssa.Convert:
+		return numericType(in.Type()) && numericType(in.X.Type())
+	case *ssa.ChangeType:
+		return numericType(in.Type())
+	case *ssa.Call:
+		if b, ok := in.Call.Value.(*ssa.Builtin); ok && (b.Name() == "len" || b.Name() == "cap") {
+			return true
+		}
+	}
+	return false
+}
+
+func pureCondBlock(b *ssa.BasicBlock) bool {
+	n := len(b.Instrs)
+	if n == 0 {
+		return false
+	}
+	if _, ok := b.Instrs[n-1].(*ssa.If); !ok {
+		return false
+	}
+	for _, in := range b.Instrs[:n-1] {
+		if _, isPhi := in.(*ssa.Phi); isPhi {
+			return false
+		}
+		if !pureInstr(in) {
+			return false
+		}
+	}
+	return true
+}
+
+func regionOf(ifi *ssa.If) *regionInfo {
+	if r, ok := regionCache[ifi]; ok {
+		return r
+	}
+	r := &regionInfo{in: map[*ssa.BasicBlock]bool{}}
+	regionCache[ifi] = r
+	root := ifi.Block()
+	// collect candidate blocks
+	var collect func(b *ssa.BasicBlock)
+	collect = func(b *ssa.BasicBlock) {
+		if b == root || r.in[b] || !pureCondBlock(b) {
+			return
+		}
+		r.in[b] = true
+		for _, s := range b.Succs {
+			collect(s)
+		}
+	}
+	for _, s := range root.Succs {
+		collect(s)
+	}
+	if len(r.in) == 0 {
+		return r
+	}
+	// topological order; reject cycles (also through root)
+	state := map[*ssa.BasicBlock]int{}
+	cyc := false
+	var post []*ssa.BasicBlock
+	var dfs func(b *ssa.BasicBlock)
+	dfs = func(b *ssa.BasicBlock) {
+		state[b] = 1
+		for _, s := range b.Succs {
+			if s == root && r.in[b] {
+				// edge back to the root block is an exit like any other
+				continue
+			}
+			if !r.in[s] {
+				continue
+			}
+			switch state[s] {
+			case 0:
+				dfs(s)
+			case 1:
+				cyc = true
+			}
+		}
+		state[b] = 2
+		post = append(post, b)
+	}
+	for _, s := range root.Succs {
+		if r.in[s] && state[s] == 0 {
+			dfs(s)
+		}
+	}
+	if cyc {
+		r.in = map[*ssa.BasicBlock]bool{}
+		return r
+	}
+	for i := len(post) - 1; i >= 0; i-- {
+		r.order = append(r.order, post[i])
+	}
+	r.ok = true
+	return r
+}
+
+type regionExit struct {
+	target *ssa.BasicBlock
+	pred   *ssa.BasicBlock
+	cond   *Term
+	preds  []*ssa.BasicBlock // merged predecessors (phi merge)
+	conds  []*Term
+}
+
+func blockHasPhi(b *ssa.BasicBlock) bool {
+	if len(b.Instrs) == 0 {
+		return false
+	}
+	_, ok := b.Instrs[0].(*ssa.Phi)
+	return ok
+}
+
+// evalRegion returns (next block, prev block, handled).
 func evalRegion(fr *frame, ifi *ssa.If, cond *Term) (*ssa.BasicBlock, *ssa.BasicBlock, bool) {
-	return nil, nil, false
+	if !UseRegions {
+		return nil, nil, false
+	}
+	r := regionOf(ifi)
+	if !r.ok {
+		return nil, nil, false
+	}
+	root := ifi.Block()
+	reach := map[*ssa.BasicBlock]*Term{}
+	var exits []*regionExit
+	addEdge := func(from, to *ssa.BasicBlock, c *Term) {
+		if isFalse(c) {
+			return
+		}
+		if r.in[to] {
+			if old, ok := reach[to]; ok {
+				reach[to] = BOr(old, c)
+			} else {
+				reach[to] = c
+			}
+			return
+		}
+		for _, e := range exits {
+			if e.target == to && (e.pred == from || !blockHasPhi(to)) {
+				e.cond = BOr(e.cond, c)
+				return
+			}
+		}
+		exits = append(exits, &regionExit{target: to, pred: from, cond: c})
+	}
+	addEdge(root, root.Succs[0], cond)
+	addEdge(root, root.Succs[1], BNot(cond))
+	saved := curInstr
+	for _, b := range r.order {
+		rc, ok := reach[b]
+		if !ok {
+			continue
+		}
+		n := len(b.Instrs)
+		for _, in := range b.Instrs[:n-1] {
+			curInstr = in
+			visitInstr(fr, in)
+		}
+		cv := fr.get(b.Instrs[n-1].(*ssa.If).Cond)
+		var ct *Term
+		switch cv := cv.(type) {
+		case bool:
+			ct = BoolT(cv)
+		case sym:
+			ct = cv.t
+		default:
+			curInstr = saved
+			return nil, nil, false
+		}
+		addEdge(b, b.Succs[0], BAnd(rc, ct))
+		addEdge(b, b.Succs[1], BAnd(rc, BNot(ct)))
+	}
+	curInstr = saved
+	if len(exits) == 0 {
+		return nil, nil, false
+	}
+	// merge exits into the same phi target when all phi inputs are scalars
+	exits = mergePhiExits(fr, exits)
+	X.St.Regions++
+	conds := make([]*Term, len(exits))
+	for i, e := range exits {
+		conds[i] = e.cond
+	}
+	ch := X.KWay(conds, curSite())
+	e := exits[ch]
+	if len(e.preds) > 1 {
+		fr.phiOverride = phiMergeValues(fr, e)
+	}
+	return e.target, e.pred, true
+}
+
+func mergePhiExits(fr *frame, exits []*regionExit) []*regionExit {
+	byTarget := map[*ssa.BasicBlock][]*regionExit{}
+	var order []*ssa.BasicBlock
+	for _, e := range exits {
+		if _, ok := byTarget[e.target]; !ok {
+			order = append(order, e.target)
+		}
+		byTarget[e.target] = append(byTarget[e.target], e)
+	}
+	var out []*regionExit
+	for _, t := range order {
+		es := byTarget[t]
+		if len(es) == 1 || !phisScalar(fr, t, es) {
+			out = append(out, es...)
+			continue
+		}
+		m := &regionExit{target: t, pred: es[0].pred, cond: BoolT(false)}
+		for _, e := range es {
+			m.preds = append(m.preds, e.pred)
+			m.conds = append(m.conds, e.cond)
+			m.cond = BOr(m.cond, e.cond)
+		}
+		X.St.Merges++
+		out = append(out, m)
+	}
+	return out
+}
+
+func phisScalar(fr *frame, t *ssa.BasicBlock, es []*regionExit) bool {
+	for _, in := range t.Instrs {
+		phi, ok := in.(*ssa.Phi)
+		if !ok {
+			break
+		}
+		if !numericType(phi.Type()) {
+			return false
+		}
+		for _, e := range es {
+			idx := predIndex(t, e.pred)
+			if idx < 0 {
+				return false
+			}
+			v, ok := tryGet(fr, phi.Edges[idx])
+			if !ok || !isScalar(v) {
+				return false
+			}
+		}
+	}
+	return true
+}
+
+func predIndex(b, pred *ssa.BasicBlock) int {
+	for i, p := range b.Preds {
+		if p == pred {
+			return i
+		}
+	}
+	return -1
+}
+
+func tryGet(fr *frame, key ssa.Value) (v value, ok bool) {
+	defer func() {
+		if recover() != nil {
+			ok = false
+		}
+	}()
+	return fr.get(key), true
+}
+
+// phiMergeValues computes, for each phi of the merged exit's target, the
+// ite over the merged predecessors.
+func phiMergeValues(fr *frame, e *regionExit) []value {
+	var vals []value
+	for _, in := range e.target.Instrs {
+		phi, ok := in.(*ssa.Phi)
+		if !ok {
+			break
+		}
+		k := kindOf(phi.Type())
+		w, _, _ := kindInfo(k)
+		n := len(e.preds)
+		res := toTerm(fr.get(phi.Edges[predIndex(e.target, e.preds[n-1])]), w)
+		for j := n - 2; j >= 0; j-- {
+			v := toTerm(fr.get(phi.Edges[predIndex(e.target, e.preds[j])]), w)
+			res = Ite(e.conds[j], v, res)
+		}
+		vals = append(vals, mkval(res, k))
+	}
+	return vals
 }
